@@ -96,6 +96,11 @@ def curated():
     out.append(D("atleast2-uncrossed", [c2, d2], cross(["c", "d"], ["c"], [["AtLeastKInARow", 2, "d", "x"], ["MinimumTrials", 4]]), ["atleast", "mintrials"]))
     out.append(D("atleast1-c", [c2, d2], cross(["c", "d"], ["c", "d"], [["AtLeastKInARow", 1, "c", "r"]]), ["atleast"]))
     out.append(D("atleast3-too-long", [c2], cross(["c"], ["c"], [["AtLeastKInARow", 3, "c", "r"]]), ["atleast", "k>block"]))
+    out.append(D("atleast3-min7", [c2], cross(["c"], ["c"], [["AtLeastKInARow", 3, "c", "r"], ["MinimumTrials", 7]]), ["atleast", "mintrials"]))
+    out.append(D("atleast4-min8", [c2], cross(["c"], ["c"], [["AtLeastKInARow", 4, "c", "r"], ["MinimumTrials", 8]]), ["atleast", "mintrials"]))
+    out.append(D("atleast3-uncrossed-min6", [c2, d2], cross(["c", "d"], ["c"], [["AtLeastKInARow", 3, "d", "x"], ["MinimumTrials", 6]]), ["atleast", "mintrials"]))
+    out.append(D("exactlykrow3-min8", [c2], cross(["c"], ["c"], [["ExactlyKInARow", 3, "c", "r"], ["MinimumTrials", 8]]), ["exactlyrow", "mintrials"]))
+    out.append(D("atmost3-min8", [c2], cross(["c"], ["c"], [["AtMostKInARow", 3, "c", "r"], ["MinimumTrials", 8]]), ["atmost", "mintrials"]))
     out.append(D("atleast2-exact-len", [c2], cross(["c"], ["c"], [["AtLeastKInARow", 2, "c", "r"]]), ["atleast", "k>block"]))
     out.append(D("exactlykrow2-c", [c2, d2], cross(["c", "d"], ["c", "d"], [["ExactlyKInARow", 2, "c", "r"]]), ["exactlyrow"]))
     out.append(D("exactlykrow1-uncrossed", [c2, d2], cross(["c", "d"], ["c"], [["ExactlyKInARow", 1, "d", "x"], ["MinimumTrials", 4]]), ["exactlyrow", "mintrials"]))
@@ -104,7 +109,7 @@ def curated():
     out.append(D("exactlyk2-uncrossed", [c2, d2], cross(["c", "d"], ["c"], [["ExactlyK", 2, "d", "x"], ["MinimumTrials", 4]]), ["exactlyk", "mintrials"]))
     out.append(D("exactlyk1-crossed", [c2, d2], cross(["c", "d"], ["c", "d"], [["ExactlyK", 2, "c", "r"]]), ["exactlyk"]))
     out.append(D("exactlyk3-impossible", [c2], cross(["c"], ["c"], [["ExactlyK", 3, "c", "r"]]), ["exactlyk", "k>n"]))
-    for idx in (0, 1, -1, -2, 5, -5):
+    for idx in (0, 1, -1, -2, 5, -5, 3, 4, -4):          # 3 / -4: the last / first trial addressed from the other end; 4: just out of range
         out.append(D(f"pin{idx}", [c2, d2], cross(["c", "d"], ["c", "d"], [["Pin", idx, "c", "r"]]), ["pin"]))
     out.append(D("pin-uncrossed", [c2, d2], cross(["c", "d"], ["c"], [["Pin", 1, "d", "x"]]), ["pin"]))
     out.append(D("exclude-rcc-false", [e3, d2], cross(["e", "d"], ["e", "d"], [["Exclude", "e", "b"]], rcc=False), ["exclude"]))
@@ -141,6 +146,8 @@ def curated():
     out.append(D("transition-atmost", [c2, d2, tr], cross(["c", "d", "t"], ["c", "d"], [["AtMostKInARow", 1, "t", "rep"]]), ["transition", "atmost"]))
     out.append(D("transition-exactlyk", [c2, d2, tr], cross(["c", "d", "t"], ["c", "d"], [["ExactlyK", 1, "t", "rep"]]), ["transition", "exactlyk"]))
     out.append(D("transition-pin", [c2, d2, tr], cross(["c", "d", "t"], ["c", "d"], [["Pin", 1, "t", "rep"]]), ["transition", "pin"]))
+    out.append(D("transition-exclude-first", [c2, d2, tr], cross(["c", "d", "t"], ["c", "d"], [["Exclude", "t", "rep"]]), ["transition", "exclude"]))
+    out.append(D("transition-dir-exclude-first", [c2, d2, transition_dir("o", "c", A2)], cross(["c", "d", "o"], ["c", "d"], [["Exclude", "o", "up"], ["MinimumTrials", 5]]), ["transition", "exclude", "directional", "mintrials"]))
     out.append(D("transition-pin0-undefined", [c2, d2, tr], cross(["c", "d", "t"], ["c", "d"], [["Pin", 0, "t", "rep"]]), ["transition", "pin"]))
     out.append(D("window3", [c2, d2, window_last("v", "c", A2, 3)], cross(["c", "d", "v"], ["c", "d"]), ["window"]))
     out.append(D("window2-stride2", [c2, d2, window_last("v", "c", A2, 2, stride=2)], cross(["c", "d", "v"], ["c", "d"]), ["window", "stride"]))
@@ -204,6 +211,8 @@ def curated():
     for al, tag in (("post preamble", "post"), ("parallel start", "parallel"), ("equal preamble", "equalpre")):
         out.append(D(f"multi-transition-second-{tag}", [c2, d2, tr], multi(["c", "d", "t"], [["d"], ["c", "t"]], mode="weight", alignment=al), ["multi", "weight", "preamble", tag]))
     out.append(D("multi-transition-post-repeat", [c2, d2, tr], multi(["c", "d", "t"], [["c", "t"], ["d"]], mode="repeat", alignment="post preamble"), ["multi", "repeat", "preamble", "post"]))
+    for mode in ("weight", "repeat"):       # the largest crossing is NOT the one with the latest-starting derived factor
+        out.append(D(f"multi-post-big-first-{mode}", [c2, d2, tr], multi(["c", "d", "t"], [["c", "d"], ["t"]], mode=mode, alignment="post preamble"), ["multi", mode, "preamble", "post"]))
     out.append(D("merge-transition-post", [c2, d2, tr], merge([cross(["c", "t"], ["c", "t"]), cross(["d"], ["d"])], mode="weight", alignment="post preamble"), ["merge", "weight", "preamble", "post"]))
     # --- Nest
     out.append(D("nest-2in2", [c2, d2], nest(cross(["c"], ["c"]), cross(["d"], ["d"])), ["nest"]))
@@ -224,6 +233,10 @@ def curated():
     out.append(D("w-uncrossed-atmost", [c2, wdu], cross(["c", "d"], ["c"], [["AtMostKInARow", 1, "d", "x"], ["MinimumTrials", 4]]), ["weight", "weight-uncrossed", "atmost", "mintrials"]))
     out.append(D("merge-weighted-uncrossed-atmost", [c2, gx, wdu], merge([cross(["g"], ["g"]), cross(["c", "d"], ["c"], [["AtMostKInARow", 1, "d", "x"]])]), ["merge", "weight", "weight-uncrossed", "atmost", "scope-inner"]))
     out.append(D("nest-weighted-uncrossed-atmost", [c2, gx, wdu], nest(cross(["c"], ["c"]), cross(["g", "d"], ["g"], [["AtMostKInARow", 1, "d", "x"]])), ["nest", "weight", "weight-uncrossed", "atmost", "scope-inner"]))
+    # a Pin (window-scoped, desugared to the hidden factor) on a weighted factor outside the crossing, given to a block that is then combined
+    out.append(D("repeat-weighted-uncrossed-pin0", [c2, wdu], repeat(cross(["c", "d"], ["c"], [["Pin", 0, "d", "x"]]), [["MinimumTrials", 4]]), ["repeat", "weight", "weight-uncrossed", "pin", "scope-inner"]))
+    out.append(D("nest-weighted-uncrossed-pin-1", [c2, gx, wdu], nest(cross(["c"], ["c"]), cross(["g", "d"], ["g"], [["Pin", -1, "d", "x"]])), ["nest", "weight", "weight-uncrossed", "pin", "scope-inner"]))
+    out.append(D("merge-weighted-uncrossed-pin0", [e3, c2, wdu], merge([cross(["e"], ["e"]), cross(["c", "d"], ["c"], [["Pin", 0, "d", "x"]])]), ["merge", "weight", "weight-uncrossed", "pin", "scope-inner"]))
     out.append(D("repeat-weighted-uncrossed-atmost", [c2, wdu], repeat(cross(["c", "d"], ["c"], [["AtMostKInARow", 1, "d", "x"]]), [["MinimumTrials", 4]]), ["repeat", "weight", "weight-uncrossed", "atmost", "scope-inner"]))
     out.append(D("nest-outer-sequential", [c2, d2], nest(cross(["c"], ["c"], [["Sequential", "c"]]), cross(["d"], ["d"])), ["nest", "sequential", "outer-constraint"]))
     out.append(D("nest-inner-sequential", [c2, d2], nest(cross(["c"], ["c"]), cross(["d"], ["d"], [["Sequential", "d"]])), ["nest", "sequential"]))
@@ -255,6 +268,7 @@ def curated():
     out.append(D("w-uncrossed-feeds-crossed-derived-2", [cw, fac("w", A2), within_eq("k", "c", "w", A2, A2)], cross(["c", "w", "k"], ["w", "k"]), ["weight", "weight-uncrossed", "within", "derived-crossed"]))
     # --- wide windows in the crossing (two preamble trials) with several basic factors
     out.append(D("window3-crossed-2basic", [c2, d2, window_last("v", "c", A2, 3)], cross(["c", "d", "v"], ["c", "v"]), ["window", "derived-crossed", "preamble", "preamble2"]))
+    out.append(D("window3-crossed-3level-first", [e3, c2, window_last("v", "c", A2, 3)], cross(["e", "c", "v"], ["v"]), ["window", "derived-crossed", "preamble", "preamble2"]))
     # --- LatinSquare
     out.append(D("latin-2x2", [c2, d2], cross(["c", "d"], ["c", "d"], [["LatinSquare", ["c", "d"]]]), ["latin"]))
     out.append(D("latin-3x3", [e3, f3], cross(["e", "f"], ["e", "f"], [["LatinSquare", ["e", "f"]]]), ["latin"]))
